@@ -65,7 +65,10 @@ func (s StringSchema) Unserialize(data any) (any, error) {
 func (s StringSchema) UnserializeType(data any) (string, error) {
 	unserialized, err := stringInputMapper(data)
 	if err != nil {
-		return "", err
+		return "", &ConstraintError{
+			Message: fmt.Sprintf("%T is not a valid data type for a string schema", data),
+			Cause:   err,
+		}
 	}
 	return unserialized, s.ValidateType(unserialized)
 }
